@@ -9,7 +9,7 @@ from vp.props.common import quiet
 
 PROP = 'C13'
 META = dict(
-    explanation='The user function of map / starmap / filter / scan raises on a symbolic condition (v % 3 == 0), so every subset of failing items (first, last, consecutive, all) is a path. Pipelines [raising op, handler, tail] '
+    explanation='The user function of map / starmap / filter / scan (streaming and reduce) raises on a symbolic condition (v % 3 == 0), so every subset of failing items (first, last, consecutive, all) is a path. Pipelines [raising op, handler, tail] '
                 'with handler in {ignore, error.map(-> -1), error router, none} and tail in {identity, count, to_list, scan} run under multiplex (stateless tails), under with_memory_store and inside group_by with 2 interleaved keys. '
                 'Oracle from the statement at list level: with ignore/router the main output equals the output of the same real pipeline on the items with the failing ones removed (other keys and later items unaffected); '
                 'with error.map the failing item is replaced in place by the mapped value; the router delivers the exceptions in source order to the dead-letter observable, which completes exactly when the stream completes; '
@@ -54,6 +54,12 @@ def _raising(op):
                 raise Bad(i)
             return a + i
         return [rs.ops.scan(acc, seed=0)], 'scan', None
+    if op == 'scan_r':
+        def acc_r(a, i):
+            if bad(i):
+                raise Bad(i)
+            return a + i
+        return [rs.ops.scan(acc_r, seed=0, reduce=True)], 'scan_r', None
     raise KeyError(op)
 
 
@@ -71,9 +77,13 @@ def _mid(op, items, replace):
         elif op == 'filter':
             if v % 3 == 2:
                 out.append(v)
-        else:
+        elif op == 'scan':
             acc = acc + v
             out.append(acc)
+        else:
+            acc = acc + v
+    if op == 'scan_r':
+        out.append(acc)          # the single reduce value, at completion, over the items that did not fail
     return out
 
 
@@ -215,17 +225,17 @@ def obligations(tier, seed):
     obs = []
     q = tier == 'quick'
     b = 300 if q else 1200
-    for op in ('map', 'starmap', 'filter', 'scan'):
+    for op in ('map', 'starmap', 'filter', 'scan', 'scan_r'):
         for handler in ('ignore', 'map', 'router', 'none'):
-            if op != 'scan':
+            if op not in ('scan', 'scan_r'):
                 obs.append(Ob(PROP, 'isolate', dict(op=op, handler=handler, tail='identity', ctx='multiplex', n=3 if q else 5), budget=b, group='multiplex',
                               bound=dict(items=3 if q else 5, ctx='multiplex')))
             for tail in ('identity', 'count', 'to_list', 'scan'):
-                if q and tail in ('count', 'scan') and op in ('starmap',):
+                if q and tail in ('count', 'scan') and op in ('starmap', 'scan_r'):
                     continue
                 obs.append(Ob(PROP, 'isolate', dict(op=op, handler=handler, tail=tail, ctx='root', n=3 if q else 5), budget=b, group='root',
                               bound=dict(items=3 if q else 5, ctx='with_memory_store root key')))
-                if q and (tail in ('count',) or op == 'starmap'):
+                if q and (tail in ('count',) or op in ('starmap', 'scan_r')):
                     continue
                 obs.append(Ob(PROP, 'isolate', dict(op=op, handler=handler, tail=tail, ctx='group', n=3 if q else 4), budget=b, group='group',
                               bound=dict(items=3 if q else 4, groups=2, ctx='group_by')))
